@@ -204,6 +204,18 @@ def run(ctx):
     (ctx.ok if okk else ctx.bad)("A-BOUNDED", "A-BOUNDED:ArpTable::get_mac", gmc.span,
         "update.subscribe() precedes the first table read (no lost wake-up)" if okk else "ArpTable::get_mac reads the table before subscribing to updates (a reply arriving in between is missed)")
 
+    # every table update wakes *all* resolvers waiting in get_mac (concurrent resolvers of one address agree)
+    for mname in ("set_mac", "fail_mac"):
+        mb = prog.method("ArpTable", mname)
+        wake = [(bb, t) for bb, t in K.calls(mb) if (F.callee_key(t) or "").startswith("tokio::sync::") and (F.callee_key(t) or "").rsplit("::", 1)[-1] in
+                ("send", "send_replace", "send_modify", "send_if_modified", "notify_waiters", "notify_one", "notify_last")]
+        single = [(bb, t) for bb, t in wake if (F.callee_key(t) or "").rsplit("::", 1)[-1] in ("notify_one", "notify_last")]
+        okk = bool(wake) and not single
+        (ctx.ok if okk else ctx.bad)("A-BOUNDED", "A-BOUNDED:ArpTable::%s:wake" % mname, mb.span,
+            "%s wakes every waiting resolver" % mname if okk else
+            ("%s wakes only one of the tasks waiting in get_mac (%s): with concurrent resolvers of the same address the reply's wake-up can go to the wrong one, which then times out and caches a failure while its sibling got the MAC" % (mname, (F.callee_key(single[0][1]) or "").rsplit("::", 1)[-1])
+             if single else "%s does not wake the resolvers waiting for the table to change" % mname))
+
     # ---------------------------------------------------------------- A-GATEWAY
     probs = []
     ws = K.assigns_to_field(rs, "AddressPair", ("remote",))
